@@ -122,12 +122,17 @@ type pstate struct {
 	facts     *omap[string, bool] // normalised condition -> outcome on this path
 	tuples    *omap[ssa.Value, []string]
 	deferArgs *omap[*ssa.Defer, []string]
+	fnArgs    *omap[ssa.Value, ssa.Value] // function-typed parameter of a walked-in frame -> the function value it was given
 	path      Path
 }
 
 func (s *pstate) clone() *pstate {
 	n := &pstate{}
 	ov, om, of, ot, od := s.vals, s.mem, s.facts, s.tuples, s.deferArgs
+	if s.fnArgs != nil {
+		oa := s.fnArgs
+		s.fnArgs, n.fnArgs = oa.child(), oa.child()
+	}
 	s.vals, n.vals = ov.child(), ov.child()
 	s.mem, n.mem = om.child(), om.child()
 	s.facts, n.facts = of.child(), of.child()
@@ -304,6 +309,7 @@ func enumPathsOpts(fn *ssa.Function, limit, maxVisits int, opts InlineOpts) (pat
 		*fr.out = append(*fr.out, outcome{s, rets})
 	}
 	_ = merge
+	var pendingArgVals []ssa.Value // the argument values of the call about to be entered (set by the call sites below)
 	enter := func(s *pstate, callee *ssa.Function, args []string, bindings []string, fr *frame) *frame {
 		serial++
 		nf := &frame{fn: callee, parent: fr, visits: map[*ssa.BasicBlock]int{}, serial: serial, out: new([]outcome), evStart: len(s.path.Events)}
@@ -312,6 +318,25 @@ func enumPathsOpts(fn *ssa.Function, limit, maxVisits int, opts InlineOpts) (pat
 				s.vals.set(p, args[i])
 			}
 		}
+		for i, p := range callee.Params {
+			if i >= len(pendingArgVals) {
+				break
+			}
+			av := pendingArgVals[i]
+			if ap, ok := av.(*ssa.Parameter); ok && s.fnArgs != nil {
+				if fv, ok := s.fnArgs.get(ap); ok {
+					av = fv
+				}
+			}
+			switch av.(type) {
+			case *ssa.Function, *ssa.MakeClosure:
+				if s.fnArgs == nil {
+					s.fnArgs = newOmap[ssa.Value, ssa.Value]()
+				}
+				s.fnArgs.set(p, av)
+			}
+		}
+		pendingArgVals = nil
 		for i, fv := range callee.FreeVars {
 			if i < len(bindings) {
 				s.vals.set(fv, bindings[i])
@@ -323,12 +348,30 @@ func enumPathsOpts(fn *ssa.Function, limit, maxVisits int, opts InlineOpts) (pat
 		if c.IsInvoke() {
 			return nil, nil
 		}
-		switch v := c.Value.(type) {
+		val := c.Value
+		forced := false
+		if p, ok := val.(*ssa.Parameter); ok && s.fnArgs != nil {
+			// a helper walked in place calls the function it was handed: that function is known here
+			if fv, ok := s.fnArgs.get(p); ok {
+				val, forced = fv, true
+			}
+		}
+		switch v := val.(type) {
 		case *ssa.Function:
-			if len(v.Blocks) > 0 && inline(v) {
+			if len(v.Blocks) > 0 && (forced || inline(v)) {
 				return v, nil
 			}
 		case *ssa.MakeClosure:
+			if forced {
+				f := v.Fn.(*ssa.Function)
+				if len(f.Blocks) > 0 {
+					var b []string
+					for _, x := range v.Bindings {
+						b = append(b, s.term(x))
+					}
+					return f, b
+				}
+			}
 			f := v.Fn.(*ssa.Function)
 			if len(f.Blocks) > 0 && inline(f) {
 				var b []string
@@ -400,9 +443,17 @@ func enumPathsOpts(fn *ssa.Function, limit, maxVisits int, opts InlineOpts) (pat
 							fresh = !whole
 						}
 					}
+					srcPre := v + "."
+					if ld, ok := x.Val.(*ssa.UnOp); ok && ld.Op == token.MUL {
+						if pre, ok := groupingLocal(ld.X); ok {
+							srcPre = pre // a local of the grouping type itself: its fields read like plain locals
+						}
+					}
 					for j := 0; st != nil && j < st.NumFields(); j++ {
 						fn := "." + fieldName(x.Val.Type(), j)
-						if fv, ok := s.mem.get(v + fn); ok {
+						if fv, ok := s.mem.get(srcPre + fn[1:]); ok {
+							s.mem.set(k+fn, fv)
+						} else if fv, ok := s.mem.get(v + fn); ok {
 							s.mem.set(k+fn, fv)
 						} else if fresh {
 							s.mem.set(k+fn, zeroTerm(st.Field(j).Type()))
@@ -414,6 +465,15 @@ func enumPathsOpts(fn *ssa.Function, limit, maxVisits int, opts InlineOpts) (pat
 					continue
 				}
 				s.mem.set(k, v)
+				// a struct copied as a whole from something that is not a local (`c := *p`): each field of the copy
+				// is that field of the source, until it is assigned
+				_, isLoad := x.Val.(*ssa.UnOp) // not a parameter or receiver spilled into its local: rules name those by the local
+				if st, isStruct := x.Val.Type().Underlying().(*types.Struct); isStruct && isLoad && !strings.HasPrefix(v, "local:") && k != v && !strings.Contains(v, "(") && strings.HasPrefix(k, "local:") && !strings.Contains(k, "#") {
+					for j := 0; j < st.NumFields(); j++ {
+						fn := "." + fieldName(x.Val.Type(), j)
+						s.mem.set(k+fn, v+fn)
+					}
+				}
 				// a struct copied as a whole carries what is known about its fields
 				if _, isStruct := x.Val.Type().Underlying().(*types.Struct); isStruct && strings.HasPrefix(v, "local:") && k != v {
 					for _, fk := range s.mem.keysWithPrefix(v + ".") {
@@ -474,9 +534,10 @@ func enumPathsOpts(fn *ssa.Function, limit, maxVisits int, opts InlineOpts) (pat
 					for _, a := range callArgs(x.Common()) {
 						at = append(at, s.term(a))
 					}
-					if !isNewHelper(callee) { // a helper split out of this function is walked as if it were still here
+					if !isNewHelper(callee) && callee.Synthetic == "" { // a helper split out of this function is walked as if it were still here; so is a bound-method wrapper
 						s.path.Events = append(s.path.Events, Event{"enter", fname(callee), ins})
 					}
+					pendingArgVals = callArgs(x.Common())
 					nf := enter(s, callee, at, binds, fr)
 					nf.call, nf.retB, nf.retI = x, b, i+1
 					run(s, callee.Blocks[0], nil, 0, nf)
@@ -1026,6 +1087,13 @@ func balanced(s string) bool {
 func nonNilTerm(t string) bool {
 	if strings.HasPrefix(t, "fmt.Errorf(") || strings.HasPrefix(t, "errors.New(") {
 		return balanced(t)
+	}
+	// goja never hands out a nil Value: Null(), Undefined() and Runtime.ToValue(x) return a value object
+	if strings.HasPrefix(t, "github.com/dop251/goja.Null(") || strings.HasPrefix(t, "github.com/dop251/goja.Undefined(") {
+		return balanced(t)
+	}
+	if rest, ok := strings.CutPrefix(t, "(*github.com/dop251/goja.Runtime).ToValue"); ok {
+		return balanced(rest) // one call: the argument list closes at the end of the term
 	}
 	if strings.ContainsAny(t, " ()[]#") {
 		return false
